@@ -121,3 +121,41 @@ pub fn remove_if_expression_convert_branch(
 pub fn remove_if_expression_process(expression: &mut crate::nodes::Expression) {
     crate::rules::verif_remove_if_expression_process(expression)
 }
+
+// ---------------------------------------------------------------------------------------------
+// call matchers of remove_assertions / remove_debug_profiling
+
+/// Answers of [`is_identifier_used_stub`]: is `assert` / `debug` shadowed by a local at the call
+/// site? (index 0: `assert`, 1: `debug`, 2: any other name)
+pub static mut IDENTIFIER_USED_ANSWERS: [bool; 3] = [false; 3];
+
+/// Stub body for `IdentifierTracker::is_identifier_used` (the scope tracker is the environment
+/// of a rule's per-node decision).
+#[allow(private_interfaces, static_mut_refs)]
+pub fn is_identifier_used_stub(
+    _tracker: &crate::process::IdentifierTracker,
+    identifier: &str,
+) -> bool {
+    let index = match identifier.as_bytes().first() {
+        Some(b'a') => 0,
+        Some(b'd') => 1,
+        _ => 2,
+    };
+    unsafe { IDENTIFIER_USED_ANSWERS[index] }
+}
+
+/// `remove_assertions`' matcher on a call prefix.
+pub fn assert_call_matches(prefix: &crate::nodes::Prefix) -> bool {
+    let tracker = crate::process::IdentifierTracker::new();
+    let result = crate::rules::verif_assert_matches(&tracker, prefix);
+    std::mem::forget(tracker);
+    result
+}
+
+/// `remove_debug_profiling`'s matcher on a call prefix.
+pub fn debug_profiling_call_matches(prefix: &crate::nodes::Prefix) -> bool {
+    let tracker = crate::process::IdentifierTracker::new();
+    let result = crate::rules::verif_debug_profiling_matches(&tracker, prefix);
+    std::mem::forget(tracker);
+    result
+}
